@@ -168,10 +168,20 @@ def r2_description(program, rep):
     MACH = plain(T.term(pl[0].args[2], n)) if len(pl[0].args) > 3 else None
     CONS = plain(T.term(pl[0].args[3], n)) if len(pl[0].args) > 3 else None
     ok = MACH is not None and MACH[0] == "call" and \
-        MACH[1] == ("global", "build_machine") and MACH[2] == (SI,) and \
-        dict(MACH[3]) == {"core_resource": P("core_resource"),
-                          "sdram_resource": P("sdram_resource"),
-                          "sram_resource": P("sram_resource")}
+        MACH[1] == ("global", "build_machine")
+    if ok:
+        # actuals against build_machine's own parameter list (positional or
+        # by keyword)
+        bm = program.get("rig.place_and_route.utils:build_machine")
+        names = formals(bm)
+        got = dict(zip(names, MACH[2]))
+        ok = len(MACH[2]) <= len(names) and not (set(got) & set(
+            k for k, v in MACH[3]))
+        got.update(dict(MACH[3]))
+        ok = ok and got == {names[0]: SI,
+                            "core_resource": P("core_resource"),
+                            "sdram_resource": P("sdram_resource"),
+                            "sram_resource": P("sram_resource")}
     BUSY = ("call", ("global", "build_core_constraints"),
             (SI, P("core_resource")), ())
     rep.check(ok, "C01-R2", inst, "the machine model and the busy-core "
